@@ -190,7 +190,11 @@ Definition c12_class (c : cfg) (t : tstep) : list (string * list string) := [].
 (* the observation: per step the reply summary — an ACK followed by ",rec<seconds>": how long from now
    the server's record of the binding lasts, rounded to the minute — then the lease table *)
 Definition round60 (d : Z) : Z := (((d + 30) / 60) * 60)%Z.
-Definition show_step (t : tstep) : string :=
+Definition show_hdr (h : bootp_hdr) : string :=
+  ";h=" ++ hexw 1 (h_op h) ++ hexw 1 (h_htype h) ++ hexw 1 (h_hlen h) ++ hexw 1 (h_hops h) ++ "," ++ hexw 2 (h_secs h)
+  ++ "," ++ hexw 2 (h_flags h) ++ "," ++ hexw 4 (h_ciaddr h) ++ "," ++ hexw 4 (h_siaddr h) ++ "," ++ hexw 4 (h_giaddr h)
+  ++ "," ++ show_bool (h_zeroed h) ++ "," ++ hexw 4 (h_cookie h).
+Definition show_step_body (t : tstep) : string :=
   match t_reply t, op_msg (t_op t) with
   | Some r, Some m =>
       if is_ack r then
@@ -201,6 +205,11 @@ Definition show_step (t : tstep) : string :=
         end
       else show_reply (Some r)
   | rp, _ => show_reply rp
+  end.
+Definition show_step (t : tstep) : string :=
+  match t_reply t, op_msg (t_op t) with
+  | Some r, Some m => show_step_body t ++ show_hdr (reply_header (r_type r) m)
+  | _, _ => show_step_body t
   end.
 Definition show_trace (tr : list tstep) (s : dstate) : string :=
   join " " (map show_step tr) ++ " | " ++ show_table (tbl s).
